@@ -3,6 +3,7 @@ package syncer
 import (
 	"context"
 	"fmt"
+	"github.com/PowerDNS/lightningstream/utils/verifhook"
 	"strings"
 	"time"
 
@@ -82,6 +83,7 @@ func (s *Syncer) syncLoop(ctx context.Context, env *lmdb.Env, r *receiver.Receiv
 		}()
 	}
 
+	verifhook.Yield("sync.start", s.instanceID())
 	// Wait for an initial snapshot listing
 	for {
 		err := r.RunOnce(ctx, true) // including own snapshots, only during startup
@@ -89,6 +91,12 @@ func (s *Syncer) syncLoop(ctx context.Context, env *lmdb.Env, r *receiver.Receiv
 			break
 		}
 		s.l.WithError(err).Info("Waiting for initial receiver listing")
+		if handled, err := verifhook.Sleep(ctx, time.Second); handled {
+			if err != nil {
+				return err
+			}
+			continue
+		}
 		time.Sleep(time.Second)
 	}
 
@@ -128,6 +136,7 @@ func (s *Syncer) syncLoop(ctx context.Context, env *lmdb.Env, r *receiver.Receiv
 		// At least it allows us to save newer entries that were added
 		// while the syncer was not running. It will not save updated entries.
 		s.l.Info("Syncing main to shadow, in case data was changed before start")
+		verifhook.Yield("sync.beforeStartupCapture", s.instanceID())
 		err := env.Update(func(txn *lmdb.Txn) error {
 			// We would like to just use timestamp 0 here, but that
 			// would break older clients that explicitly guard against
@@ -142,6 +151,7 @@ func (s *Syncer) syncLoop(ctx context.Context, env *lmdb.Env, r *receiver.Receiv
 		}
 	}
 
+	verifhook.Yield("sync.afterStartupCapture", s.instanceID())
 	// Store a snapshot of current data if there are no snapshots yet.
 	// We do not do this here when a snapshot already exists, because it could
 	// be a snapshot from this instance that we do not want to overwrite
@@ -190,6 +200,7 @@ func (s *Syncer) syncLoop(ctx context.Context, env *lmdb.Env, r *receiver.Receiv
 		// Additionally, in shadow mode, every load will implicitly trigger a
 		// snapshot when local changes are detected.
 		// TODO: LSE: Maybe also add MaxConsecutiveUpdateLoads, or base this on time?
+		verifhook.Yield("sync.loopTop", s.instanceID())
 		nLoads := 0
 	loadReadySnapshotsLoop:
 		for {
@@ -198,6 +209,7 @@ func (s *Syncer) syncLoop(ctx context.Context, env *lmdb.Env, r *receiver.Receiv
 				break loadReadySnapshotsLoop // no more ready remote snapshots
 			}
 
+			verifhook.Yield("sync.beforeLoad", s.instanceID())
 			// New update to load
 			l := s.l.WithFields(logrus.Fields{
 				"kind": update.NameInfo.Kind,
@@ -229,6 +241,7 @@ func (s *Syncer) syncLoop(ctx context.Context, env *lmdb.Env, r *receiver.Receiv
 			actualTxnID, localChanged, err := s.LoadOnce(
 				ctx, env, instance, update, lastSyncedTxnID)
 			update.Close() // releases the DecompressedSnapshotToken
+			verifhook.Yield("sync.afterLoad", s.instanceID())
 			if err != nil {
 				return err
 			}
@@ -283,6 +296,7 @@ func (s *Syncer) syncLoop(ctx context.Context, env *lmdb.Env, r *receiver.Receiv
 		}
 
 		// Check for change in local LMDB
+		verifhook.Yield("sync.beforeInfo", s.instanceID())
 		info, err := env.Info()
 		if err != nil {
 			return err
@@ -307,6 +321,7 @@ func (s *Syncer) syncLoop(ctx context.Context, env *lmdb.Env, r *receiver.Receiv
 				// TODO: Can we fix this for shadow mode?
 				s.l.Info("Waiting to load own old snapshot before writing a new one")
 			} else {
+				verifhook.Yield("sync.beforeSend", s.instanceID())
 				lastSyncedTxnID = header.TxnID(info.LastTxnID)
 				s.l.WithField("LastTxnID", lastSyncedTxnID).Debug("LMDB changed locally, syncing")
 
@@ -326,6 +341,7 @@ func (s *Syncer) syncLoop(ctx context.Context, env *lmdb.Env, r *receiver.Receiv
 			}
 		}
 
+		verifhook.Yield("sync.afterSendCheck", s.instanceID())
 		// Update start tracker if pass has completed
 		if waitingForInstances.Done() {
 			s.startTracker.SetPassCompleted()
@@ -347,6 +363,7 @@ func (s *Syncer) syncLoop(ctx context.Context, env *lmdb.Env, r *receiver.Receiv
 
 func (s *Syncer) LoadOnce(ctx context.Context, env *lmdb.Env, instance string, update snapshot.Update, lastTxnID header.TxnID) (txnID header.TxnID, localChanged bool, err error) {
 	t0 := time.Now() // for performance measurements
+	t0 = verifhook.Now("load.t0", t0)
 	snap := update.Snapshot
 
 	var tTxnAcquire time.Time
@@ -361,6 +378,7 @@ func (s *Syncer) LoadOnce(ctx context.Context, env *lmdb.Env, instance string, u
 
 	err = env.Update(func(txn *lmdb.Txn) error {
 		ts := time.Now()
+		ts = verifhook.Now("load.ts", ts)
 		tTxnAcquire = ts
 		tsNano := header.TimestampFromTime(ts)
 		txnID = header.TxnID(txn.ID())
@@ -497,6 +515,7 @@ func (s *Syncer) LoadOnce(ctx context.Context, env *lmdb.Env, instance string, u
 				return err
 			}
 			ld.Debug("Merge successful")
+			verifhook.Yield("load.afterDBI", s.instanceID())
 
 			if utils.IsCanceled(ctx) {
 				return context.Canceled
@@ -521,6 +540,7 @@ func (s *Syncer) LoadOnce(ctx context.Context, env *lmdb.Env, instance string, u
 		return 0, false, err
 	}
 	tLoaded := time.Now()
+	verifhook.Yield("load.afterTxn", s.instanceID())
 
 	// If no actual changes were made, LMDB will not record the transaction
 	// and reuse the ID the next time, so we need to adjust the txnID we return.
